@@ -130,6 +130,38 @@ def fresh_index_bytes(out_path):
     return res, b
 
 
+def index_entries(b):
+    """(whole-second time | None, type, offset) per 14-byte entry of a .p1i file (the last one is the end marker), or None."""
+    if b is None or len(b) % 14:
+        return None
+    import struct
+    return [(None if t == 0xFFFFFFFF else t, ty, o) for t, ty, o in struct.iter_unpack('<IHQ', b)]
+
+
+def describe_index_difference(ib, fb, ob):
+    """Signature and text for a written index that differs from the fresh one: the first differing entry, field by field."""
+    sig = 'C18/written-index-not-equivalent-to-fresh'
+    w, f = index_entries(ib), index_entries(fb)
+    if w is None or f is None:
+        return sig, ''
+    if len(w) != len(f):
+        return sig, ': %d entries written, %d in the fresh index' % (len(w), len(f))
+    diff = [k for k in range(len(w)) if w[k] != f[k]]
+    if not diff:
+        return sig, ''
+    k = diff[0]
+    only_times = all(w[j][1:] == f[j][1:] for j in diff)
+    name = ''
+    if only_times and ob is not None and w[k][2] + 24 <= len(ob):
+        from fusion_engine_client.messages import message_type_to_class
+        name = ''.join(' ' + c.__name__ for t, c in message_type_to_class.items() if int(t) == w[k][1])
+        size = 24 + int.from_bytes(ob[w[k][2] + 16:w[k][2] + 20], 'little')
+        name += ', P1 time by the class\'s own get_p1_time(): %s s' % ic.expected_time(ob[w[k][2]:w[k][2] + size])
+    text = ': %d of %d entries differ%s; first: entry %d (offset %d, type %d%s) written (time, type, offset) = %s, fresh = %s' % (
+        len(diff), len(w), ' (P1 times only)' if only_times else '', k, w[k][2], w[k][1], name, w[k], f[k])
+    return (sig + '/times' if only_times else sig), text
+
+
 _STALE = {}
 
 
@@ -153,6 +185,125 @@ def stale_files(rng):
                 os.remove(f)
     ob, ib = _STALE['v']
     return rng.choice([(ob, ib), (ob, None), (b'not a log at all', None), (ob, ib)])
+
+
+def time_family_messages(rng, t0=1000.0):
+    """CRC-valid messages of EVERY registered class, with every way a class can define (or lack) its P1 time. Returns a list of
+    (message bytes, label) in generation order (P1 times strictly increasing by whole seconds):
+      - classes with `details` (MeasurementDetails): every SystemTimeSource x measurement_time unset/set x details.p1_time
+        unset / set in the same whole second / in a later second / in an earlier second / a nanosecond before the second
+        (P1 time = measurement_time when the source is P1_TIME, details.p1_time otherwise);
+      - classes with their own `p1_time`: set, invalid; with a DIFFERENT gps_time where the class has one;
+      - classes without P1 time: as constructed, and with a system time where the class has one (never a P1 time)."""
+    from fusion_engine_client.messages import message_type_to_class, MeasurementDetails, Timestamp, SystemTimeSource
+    out = []
+    t = [float(t0)]
+    seq = [0]
+
+    def step():
+        t[0] += 1.0
+        return t[0]
+
+    def add(c, o, label):
+        try:
+            p = bytes(o.pack())
+        except Exception:
+            return
+        v = int(c.get_version()) if hasattr(c, 'get_version') else 0
+        out.append((gen.frame(int(c.get_type()), p, seq[0], 0, v), '%s/%s' % (c.__name__, label)))
+        seq[0] += 1
+
+    for mt, c in sorted(message_type_to_class.items(), key=lambda x: int(x[0])):
+        try:
+            probe = c()
+        except Exception:
+            continue
+        if isinstance(getattr(probe, 'details', None), MeasurementDetails):
+            for src in SystemTimeSource:
+                for mset in (True, False):
+                    for dp in ('unset', 'same-second', 'later-second', 'earlier-second', 'ns-before'):
+                        o = c()
+                        now = step() + 0.5
+                        o.details.measurement_time_source = src
+                        o.details.measurement_time = Timestamp(now) if mset else Timestamp()
+                        if dp == 'unset':
+                            o.details.p1_time = Timestamp()
+                        elif dp == 'ns-before':
+                            o.details.measurement_time = Timestamp(now - 0.5) if mset else Timestamp()
+                            o.details.p1_time = Timestamp()
+                            o.details.p1_time.seconds = now - 1.5 + 0.999999999
+                        else:
+                            o.details.p1_time = Timestamp(max(0.0, now + {'same-second': 0.25, 'later-second': 7.0, 'earlier-second': -993.0}[dp]))
+                        add(c, o, 'details:%s:measurement_time-%s:p1_time-%s' % (src.name, 'set' if mset else 'unset', dp))
+            # time-source bytes outside the enumeration (the byte is located by comparing two packed objects)
+            a, b = c(), c()
+            b.details.measurement_time_source = SystemTimeSource.P1_TIME
+            try:
+                pa, pb = bytes(a.pack()), bytes(b.pack())
+            except Exception:
+                continue
+            at = [k for k in range(len(pa)) if pa[k] != pb[k]]
+            if len(at) == 1:
+                for raw in (5, 255):
+                    o = c()
+                    now = step() + 0.5
+                    o.details.measurement_time_source = SystemTimeSource.P1_TIME
+                    o.details.measurement_time = Timestamp(now)
+                    o.details.p1_time = Timestamp(now + 7.0)
+                    p = bytearray(o.pack())
+                    p[at[0]] = raw
+                    v = int(c.get_version()) if hasattr(c, 'get_version') else 0
+                    out.append((gen.frame(int(c.get_type()), bytes(p), seq[0], 0, v), '%s/details:source-byte-%d' % (c.__name__, raw)))
+                    seq[0] += 1
+        elif hasattr(probe, 'p1_time'):
+            for label in ('p1-set', 'p1-invalid', 'p1-set-other-gps', 'p1-invalid-gps-set'):
+                o = c()
+                now = step() + 0.25
+                o.p1_time = Timestamp(now) if 'p1-set' in label else Timestamp()
+                if 'gps' in label:
+                    if not isinstance(getattr(o, 'gps_time', None), Timestamp):
+                        continue
+                    o.gps_time = Timestamp(now + 1.3e9)
+                add(c, o, label)
+        else:
+            add(c, c(), 'no-p1')
+            if hasattr(probe, 'system_time_ns'):
+                o = c()
+                o.system_time_ns = int((step() + 0.75) * 1e9)
+                add(c, o, 'no-p1-system-time-set')
+    return out
+
+
+def time_family_files(ctx, rng):
+    """Files made of time_family_messages(): (data, label, every message <= 200 bytes). Quick tier: every message once, in
+    generation order, in slices of 64 (small replays), and two shuffled mixes with junk and false syncs in between; thorough tier
+    also one file per class and more mixes."""
+    tf = time_family_messages(rng, t0=rng.choice([0.0, 1000.0, 4.0e9]))
+    for _, label in tf:
+        ctx.count('time_family_' + label.split('/')[1].split(':measurement_time')[0].replace(':', '_'))
+    res = []
+    n = 64
+    for k in range(0, len(tf), n):
+        sl = tf[k:k + n]
+        res.append((b''.join(m for m, _ in sl), 'time-families-%s..%s' % (sl[0][1], sl[-1][1]), all(len(m) <= 200 for m, _ in sl)))
+    seqs = {'n': 7}
+    for k in range(8 if ctx.thorough else 2):
+        sl = rng.sample(tf, 48)
+        parts = []
+        for m, _ in sl:
+            parts.append(m)
+            if rng.random() < 0.4:
+                parts.append(gen.token(rng, rng.choice('JSFCTU'), seqs))
+        res.append((rng.choice([b'', b'x', b'junk\x2e']) + b''.join(parts), 'time-families-mixed-%d' % k, False))
+    if ctx.thorough:
+        by = {}
+        for m, label in tf:
+            by.setdefault(label.split('/')[0], []).append(m)
+        for name, ms in by.items():
+            if len(ms) > 1:
+                rng.shuffle(ms)
+                res.append((b'\x2e'.join(ms), 'time-families-class-%s' % name, all(len(m) <= 200 for m in ms)))
+    return res
 
 
 def one_file(ctx, data, kinds, lines, pending, via_app=False, save_index=True, stale=None):
@@ -261,9 +412,12 @@ def judge(ctx, replay, count, ob, ib, fresh, again, mo):
         ctx.violation('C18/fresh-index-of-output-differs', 'fresh index of the output has offsets %s, the builder recorded %s' %
                       (res[1][:10], offs[:10]), replay)
     if replay.get('save_index', True) and ib != fb:
-        ctx.violation('C18/written-index-not-equivalent-to-fresh',
+        sig, where = describe_index_difference(ib, fb, ob)
+        ctx.violation(sig,
                       'the .p1i written by the extraction differs from the one a fresh indexing of the output writes '
-                      '(%s vs %s bytes)' % (None if ib is None else len(ib), None if fb is None else len(fb)), replay)
+                      '(%s vs %s bytes)%s' % (None if ib is None else len(ib), None if fb is None else len(fb), where), replay)
+    if replay.get('save_index', True) and ib is not None:
+        ctx.count('written_index_entries_compared_with_fresh_time_type_offset', len(ib) // 14)
     if again is None or again[0] == 'raise':
         ctx.violation('C18/second-extraction-raised', str(again), replay)
     elif again[2] != ob:
@@ -304,6 +458,8 @@ def run(ctx, budget):
     files.append((b'xx' + b''.join(bt), 'boundary-times'))
     for m in bt[:4]:
         files.append((m + b'\x2e\x31junk' + gen.frame(9, b'q', 5), 'boundary-time'))
+    # every way a message class defines its P1 time (see time_family_messages): always with an index request
+    timed_files = time_family_files(ctx, rng)
     # RTCM-like frames and message-free files
     files.append((b'\xd3\x00\x04' + bytes(7) + b'\xd3\x00\x00\x47\xea\x4b', 'rtcm'))
     files.append((b'', 'empty'))
@@ -328,6 +484,12 @@ def run(ctx, budget):
                  stale=stale_files(rng) if i % 5 == 2 else None)
         for t in kinds if kinds.isalpha() and kinds.isupper() else ['x']:
             ctx.count('token_' + t)
+    ic.rebind(80 * 1024, 16 * 1024)
+    for i, (data, kinds, small) in enumerate(timed_files):
+        ic.rebind(*((64, 256) if i % 3 == 1 and small else (80 * 1024, 16 * 1024)))
+        one_file(ctx, data, kinds, lines, pending, via_app=kinds.startswith('time-families-mixed') and [False, True, 'locate'][i % 3],
+                 save_index=True, stale=stale_files(rng) if i % 4 == 3 else None)
+        ctx.count('time_family_files')
     ic.rebind(80 * 1024, 16 * 1024)
     # the locate_log(..., extract_fusion_engine_data=True) entry point, on fresh directories and where an earlier extraction of
     # OTHER content left its files at the output path (non-empty inputs: the function does not consider empty files)
